@@ -361,7 +361,10 @@ func ServerToClient(d *m.Design, s *m.Service, meth *m.Method, c *Case, obs *har
 		}
 		if meth.Result != nil {
 			want := oracle.Canonicalize(d, meth.Result, c.Final)
-			expected := oracle.Project(d, meth.Result, want, "default")
+			expected := want
+			if len(oracle.ResultViews(d, meth.Result)) > 0 {
+				expected = oracle.Project(d, meth.Result, want, "default")
+			}
 			got := value.Nil()
 			if obs.HasResult {
 				got = oracle.Canonicalize(d, meth.Result, obs.Result)
